@@ -185,22 +185,40 @@ func init() {
 				if !ok || pathOf(stw.Addr) != wPath {
 					return
 				}
-				k, isK := constInt(stw.Val)
-				if !isK {
+				// the stored value may be chosen by branches (weight = normalise(...) written in line): look at
+				// every way it is produced; a way that stores the old weight back changes nothing
+				var got iset
+				typedAll, anyConst := true, false
+				kk := int64(100)
+				for _, vp := range splitPaths([]ssa.Value{stw.Val}, in.Block()) {
+					k, isK := constInt(vp.vals[0])
+					if !isK {
+						continue // the old weight written back, or the parsed value itself
+					}
+					anyConst = true
+					if k != 100 {
+						kk = k
+					}
+					typed := false
+					for _, f := range vp.pathFacts() {
+						if c, okc := normFact(f); okc && pathOf(c.X) == vPath && c.Op == token.NEQ {
+							if z, isZ := constInt(c.Y); isZ && z == 0 {
+								typed = true
+							}
+						}
+					}
+					if !typed {
+						typedAll = false
+					}
+					got = got.union(vp.pathSet(wsets, isW))
+				}
+				if !anyConst {
 					return
 				}
 				found = true
-				typed := false
-				for _, f := range facts(in.Block()) {
-					if c, okc := normFact(f); okc && pathOf(c.X) == vPath && c.Op == token.NEQ {
-						if z, isZ := constInt(c.Y); isZ && z == 0 {
-							typed = true
-						}
-					}
-				}
-				got := wsets[in.Block()]
 				want := rng(-1, -1).union(rng(101, posInf))
-				r.Check(k == 100 && typed && got.equal(want), fname(fn), "weight normalisation", in.Pos(), "weight := 100 for weightType != 0 and weight ∈ %s", "weight is rewritten to %d for weight ∈ %s (weightType!=0: %v); the documented rule is: weight type set and weight == -1 or > 100 -> 100 (an explicit weight such as 0 must be kept)", map[bool]any{true: got, false: k}[k == 100 && typed && got.equal(want)], got, typed)
+				okN := kk == 100 && typedAll && got.equal(want)
+				r.Check(okN, fname(fn), "weight normalisation", in.Pos(), "weight := 100 for weightType != 0 and weight ∈ %s", "weight is rewritten to %d for weight ∈ %s (weightType!=0: %v); the documented rule is: weight type set and weight == -1 or > 100 -> 100 (an explicit weight such as 0 must be kept)", map[bool]any{true: got, false: kk}[okN], got, typedAll)
 			})
 			if !found {
 				r.Bad(fname(fn), "weight normalisation", fn.Pos(), "no normalisation of the weight found")
